@@ -83,3 +83,26 @@ Theorem recover_stops_the_panic : forall kinds cs cur i,
   forall p, snd (outcome kinds ((i, p) :: cs) cur) = false.
 Proof. exact outcome_recover_last. Qed.
 Print Assumptions recover_stops_the_panic.
+
+(* The frame is created where an unconditional first defer statement stands
+   (at function entry otherwise): with that taken into account the machine makes
+   Go's calls, and leaves Go's panic state, also for runs that panic before the
+   first defer statement - no frame, no deferred call. *)
+Theorem defers_lifo_exactly_once_with_frame_creation : forall sh tr,
+  (frame_created sh tr = true -> consistent (effective sh) tr) ->
+  (frame_created sh tr = false -> tr = []) ->
+  machine_frame sh tr = spec sh tr.
+Proof. exact machine_frame_eq_spec. Qed.
+Print Assumptions defers_lifo_exactly_once_with_frame_creation.
+
+Theorem outcome_with_frame_creation : forall sh kinds tr cur,
+  (frame_created sh tr = true -> consistent (effective sh) tr) ->
+  (frame_created sh tr = false -> tr = []) ->
+  machine_frame_outcome sh kinds tr cur = spec_outcome sh kinds tr cur.
+Proof. exact machine_frame_outcome_eq_spec. Qed.
+Print Assumptions outcome_with_frame_creation.
+
+Example frame_creation_nontrivial :
+  frame_created [S_ Always false] [] = false /\ machine_frame [S_ Always false] [] = []
+  /\ machine_eff [S_ Always false] [] <> [].
+Proof. repeat split; try reflexivity. cbv. discriminate. Qed.
